@@ -41,6 +41,7 @@ type thr struct {
 	harness bool // spawned by verifrt.Go
 	spin    int  // consecutive receives from a closed channel without blocking in between
 	name    string
+	vc      vclock // happens-before vector clock (race detection)
 }
 
 type muState struct {
@@ -64,12 +65,18 @@ type schedT struct {
 	ThreadPanics []threadPanic
 	Tickers      []*vchan
 	TickerPeriods []value
+	TickerResets  []tickerReset
 	quiet        map[*value]bool
 	unlockYield  bool // mutex releases are pre-emption points too (verifrt.PreemptAtUnlock)
 	timersAtYield bool // armed timers may fire at every pre-emption point even outside FireTimers (default before: always)
 	spawnedFIFO  bool // see pickNext (verifrt.SpawnedFIFO)
 	onlyHolding  bool // lock operations are pre-emption points only while the thread holds a lock (verifrt.PreemptOnlyHolding)
 	LockOps      int
+}
+
+type tickerReset struct {
+	ticker int
+	period value
 }
 
 type threadPanic struct {
@@ -92,6 +99,9 @@ func newSched(i *interpreter, preempt int) *schedT {
 func (s *schedT) spawn(fn value, args []value, state int, name string) *thr {
 	t := &thr{id: len(s.thr), wake: make(chan struct{}), state: state, fn: fn, args: args, name: name, isTimer: state == stTimer}
 	s.thr = append(s.thr, t)
+	if RD.on {
+		RD.fork(s.cur, t)
+	}
 	go func() {
 		<-t.wake
 		defer func() {
@@ -283,9 +293,11 @@ func (s *schedT) lock(m *value, read bool) {
 		st.writer = s.cur
 	}
 	s.cur.held++
+	RD.acquired(m, read)
 }
 
 func (s *schedT) unlock(m *value, read bool) {
+	RD.released(m, read)
 	st := s.mu(m)
 	if read {
 		// RUnlock may be called by a different goroutine than RLock in Go; keep it simple
@@ -407,6 +419,7 @@ func chanClose(v value) {
 		panic(targetPanic{iface{types.Typ[types.String], "close of closed channel"}})
 	}
 	c.closed = true
+	RD.syncOn(c)
 	SC.wakeChanWaiters()
 }
 
@@ -463,6 +476,7 @@ func chanRecv(v value, elem types.Type) (value, bool) {
 		if c != nil && c.canRecv() {
 			x, ok := c.doRecv(elem)
 			noteRecv(ok)
+			RD.syncOn(c)
 			SC.wakeChanWaiters()
 			return x, ok
 		}
@@ -487,11 +501,13 @@ func chanSend(v value, x value) {
 	if c.closed {
 		panic(targetPanic{iface{types.Typ[types.String], "send on closed channel"}})
 	}
+	RD.syncOn(c)
 	if len(c.buf) < c.cap {
 		c.buf = append(c.buf, x)
 		SC.wakeChanWaiters()
 		return
 	}
+	defer RD.syncOn(c)
 	p := &pendingSend{v: x, t: SC.cur}
 	c.pending = append(c.pending, p)
 	SC.wakeChanWaiters()
@@ -551,6 +567,8 @@ func chanSelect(fr *frame, instr *ssa.Select) value {
 		i := ready[k]
 		st := instr.States[i]
 		c := fr.get(st.Chan).(*vchan)
+		RD.syncOn(c)
+		defer RD.syncOn(c)
 		if st.Dir == types.RecvOnly {
 			x, ok := c.doRecv(st.Chan.Type().Underlying().(*types.Chan).Elem())
 			noteRecv(ok)
@@ -602,6 +620,7 @@ func init() {
 			return false
 		}
 		st.writer = SC.cur
+		RD.acquired(args[0].(*value), false)
 		return true
 	}
 	externals["(*sync.RWMutex).Lock"] = externals["(*sync.Mutex).Lock"]
@@ -615,10 +634,12 @@ func init() {
 			// sync.Once{done atomic.Uint32 / uint32, m Mutex}: mark first (good enough without re-entrancy)
 			onceDone[p] = true
 		}
+		RD.syncOn(p)
 		if !onceRan[p] {
 			onceRan[p] = true
 			call(fr.i, fr, 0, args[1], nil)
 		}
+		RD.syncOn(p)
 		return nil
 	}
 	externals["time.AfterFunc"] = func(fr *frame, args []value) value {
@@ -666,6 +687,28 @@ func init() {
 		return p
 	}
 	externals["(*time.Ticker).Stop"] = func(fr *frame, args []value) value { return nil }
+	// Reset re-arms the ticker relative to the moment of the call: the next tick comes one period after the
+	// call, not one period after the previous tick. Ticks are delivered by the harness; the call is recorded
+	// (ticker index, new period) so that a harness can bound the effective refresh period.
+	externals["(*time.Ticker).Reset"] = func(fr *frame, args []value) value {
+		EX.Stubs["(*time.Ticker).Reset (recorded: the ticker is re-armed relative to the call)"]++
+		p, _ := args[0].(*value)
+		if p == nil {
+			panic(targetNilDeref(fr, "(*time.Ticker).Reset"))
+		}
+		idx := -1
+		if st, ok := (*p).(structure); ok {
+			if c, ok := st[0].(*vchan); ok {
+				for i, t := range SC.Tickers {
+					if t == c {
+						idx = i
+					}
+				}
+			}
+		}
+		SC.TickerResets = append(SC.TickerResets, tickerReset{idx, args[1]})
+		return nil
+	}
 	externals["time.Sleep"] = func(fr *frame, args []value) value { SC.yield(); return nil }
 	externals["runtime.Gosched"] = func(fr *frame, args []value) value { SC.yield(); return nil }
 }
